@@ -2,6 +2,7 @@
 (C09, C10, C11): finite differences and homogeneous-matrix re-implementations.  Their purpose is
 to produce concrete replays; they are tests, not proofs."""
 import math
+from fractions import Fraction
 import random
 
 import numpy as np
@@ -204,8 +205,9 @@ def group_laws(seed, n_per, kinds=('R2', 'R3', 'SE2', 'SE3')):
                     other = make_pose(k, d)
                 got = (A + np.array(d)).to_array()
                 okb = np.allclose(got, (A + other).to_array(), rtol=0, atol=1e-12 * sc)
-                if not okb and k == 'SE3' and abs(rn - 1.0) < 1e-12:
-                    # |d_rot| = 1 to within rounding: whether the code's `norm > 1.0` test fires is decided by the last bit of
+                if not okb and k == 'SE3' and abs(rn - 1.0) < 1e-12 and sum(Fraction(float(x)) ** 2 for x in d[3:]) != 1:
+                    # |d_rot| = 1 to within rounding BUT NOT EXACTLY (an exactly unit increment such as (1,0,0) has an exact norm in any
+                    # summation order and must take the documented inner branch): whether the code's `norm > 1.0` test fires is decided by the last bit of
                     # np.linalg.norm; both branches are the documented behaviour of one side of the boundary
                     # (and on the inner side w = sqrt(1 - |d|^2) amplifies a last-bit difference in |d|^2 to ~1e-8)
                     okb = any(np.allclose(got, (A + alt).to_array(), rtol=0, atol=1e-6 * sc)
